@@ -37,6 +37,12 @@ func execDirect(sc *proc.Scenario, tag string) map[string]string {
 	pub := map[string]string{}
 	proc.RunDirect(rig, sc, md, func(rec *proc.StepRecord) {
 		r.Count("events", 1)
+		if rec.Event.Kind == "restart" { // a new aggregation lifetime: what was published before may be published again
+			for k := range pub {
+				delete(pub, k)
+			}
+			r.Count("process_restarts_in_scenarios", 1)
+		}
 		if rec.Event.Kind == "msg" && len(rec.Expect.Obs) > 0 {
 			r.Count("own_observations_checked", 1)
 		}
@@ -165,7 +171,7 @@ func main() {
 	for i := 0; i < nA; i++ {
 		n := sizes[i%len(sizes)]
 		s := next()
-		sc := proc.Gen(rng, proc.GenOpts{N: n, NodePos: (i/len(sizes))%(n+1) - 1, NSets: 1 + rng.Intn(3), NMsgs: 1 + rng.Intn(3), Serial: s, Hostile: true, SetMoves: true})
+		sc := proc.Gen(rng, proc.GenOpts{N: n, NodePos: (i/len(sizes))%(n+1) - 1, NSets: 1 + rng.Intn(3), NMsgs: 1 + rng.Intn(3), Serial: s, Hostile: true, SetMoves: true, Restarts: true})
 		if rng.Intn(3) == 0 {
 			addGovMsg(rng, sc, s)
 			r.Count("governance_emitter_scenarios", 1)
